@@ -205,6 +205,11 @@ def histories(tier):
         for end in ('END', 'FLUSH FAIL'):
             seq = (a, b) + tuple(end.split(' '))
             if _valid_prefix(seq): out.append(seq)
+    core_ops = ['newx x1 -', 'newy y1 -', 'newy y1 x0', 'newt t1', 'setv x x0 7', 'setv y y0 3', 'sety x0 y1', 'sety x1 y1', 'sety x2 y0', 'setowner y0 x1', 'setowner y1 x1', 'setboss x0 x2',
+                'setboss x1 x0', 'delx x0', 'dely y0', 'tag t1 x0', 'untag t0 x0', 'friend x0 x1', 'settags x0 t1']
+    for seq in itertools.product(OPS if tier == 'thorough' else core_ops, repeat=3):
+        seq = seq + ('END',)
+        if _valid_prefix(seq): out.append(seq)
     seed = int(os.environ.get('VERIF_SEED', '1') or 1)
     rnd = random.Random(seed)
     n = 150000 if tier == 'thorough' else 1000
@@ -317,5 +322,5 @@ CONTRACTS = [
                            'pony.orm.core:Entity._save_deleted_', 'pony.orm.core:Set.add_m2m', 'pony.orm.core:Set.remove_m2m', 'pony.orm.core:commit', 'pony.orm.core:rollback',
                            'pony.orm.core:SessionCache.commit', 'pony.orm.core:SessionCache.close'], _cfgs, _case,
              [('database_equals_the_committed_reference_state_at_every_commit_and_rollback', lambda cfg, i, path: path.outcome == 'ret' and path.value == [] and path.state['n'] > 0)],
-             level='bounded', bound='exhaustive histories of <= 2 operations x ways of ending the session; 1000 (thorough 150000) seeded random histories of <= 10 steps over 42 operations and 5 control steps'),
+             level='bounded', bound='exhaustive histories of <= 2 operations x ways of ending the session, all triples over 19 core operations (thorough: all 42); 1000 (thorough 150000) seeded random histories of <= 10 steps over 42 operations and 5 control steps'),
 ]
